@@ -14,6 +14,9 @@ CHECKS = {
  "C04": ("translation_validation",
          "Every chart of the families is transpiled by ChartToC (in-process), the emitted machine is compiled with the sizing macros the generator emits (thorough: also with ASan+UBSan) together with a scaffold providing all callbacks, run on every event word, and every uscxml_step() is compared by TLC with the TLA+ specification iterated to the next micro-step (dequeued/raised/sent events, log output incl. entry/exit order, configuration, final data); the uscxml_ctx sits between guard areas checked after every step.",
          "5 C04", "trace validation of emitted C against the TLA+ spec (Trace_Step, coarse step) + sanitizer side condition"),
+ "C06": ("translation_validation",
+         "Every chart of the families that the Promela back-end can express (promela datamodel, integer data, raise/send/assign/if/log, In predicate, history, parallel; no error-raising content) is transpiled by ChartToPromela (in-process), the event word is injected into the emitted model's external queue and the model is simulated by spin; the whole run (dequeued internal/external events, exited and entered states, <log> values incl. order, the configuration when the run ends idle, finished or not) is compared by TLC with the TLA+ specification iterated to quiescence. Runs that spin cuts off (step bound, or one of the model's bounded queues is full) are compared on the common prefix.",
+         "5 C06", "trace validation of spin simulations of the emitted Promela model against the TLA+ spec (Trace_Step, StepUntilQuiescent)"),
  "C07": ("fault_enumeration",
          "For every base chart (directed + bounded-exhaustive E(1..2,1)) and every position of every executable block (onentry, onexit, transition, initial/history transition), one variant per fault kind (illegal location, illegal expression, unsupported send type, unreachable / invalid send target, missing attribute, division and modulo by zero) plus failing conditions, <if> conditions and <data> initialisers, for lua and promela, both engines; TLC validates every step against the specification's error semantics (error event at the right queue position, only the rest of that block skipped); the recording child's exit status is part of the trace.",
          "5 C07", "fault enumeration: recorded runs of fault-injected charts validated against the TLA+ spec (Trace_Step)"),
@@ -79,7 +82,7 @@ def main():
          "hooks": {"guard": "USCXML_VERIF",
                    "enable": "cmake -S /repo -B /verif/build/hooks -DCMAKE_CXX_FLAGS=-DUSCXML_VERIF (make -C /verif build)",
                    "baseline_off_cmd": "/verif/lib/baseline.sh",
-                   "source_commits": [], "add_only": True},
+                   "source_commits": ["ffb07418"], "add_only": True},
          "engines": [{"name": "tlc", "path": "/opt/veriftools/tla/tla2tools.jar", "serves_properties": sorted(CHECKS),
                       "kind_free_text": "TLC model checker: judges recorded traces against the TLA+ specification and model-checks the specification"}],
          "checks": [], "not_applicable": [],
